@@ -7,7 +7,7 @@
    permute it further.  That the implemented rules have this shape is tied by the permutation / partition /
    repeated-run search, not by proof. *)
 From Coq Require Import List NArith Bool Permutation.
-From Verif Require Import Base.Res Model.Analyzer Proofs.AnalyzerProofs Base.Text Model.Scope Proofs.ScopeProofs.
+From Verif Require Import Base.Res Model.Analyzer Proofs.AnalyzerProofs Base.Text Model.Scope Proofs.ScopeProofs Gen.GenRules Model.Rules Proofs.RulesProofs.
 Import ListNotations.
 
 Theorem C06_verdict_order_independent :
@@ -50,3 +50,25 @@ Example C06_example :
   verdict (N * N) key N check [(1, 2); (2, 2)]%N = true /\ verdict (N * N) key N check [(2, 2); (1, 2)]%N = true /\
   verdict (N * N) key N check [(1, 3); (2, 2)]%N = false.
 Proof. vm_compute. repeat split; reflexivity. Qed.
+
+(* ---- the rules on declarations, invocations and configurations (Model/Rules.v): the order plays no role ---- *)
+(* per-declaration rules: any order of the units gives the same diagnostics (code and place), as a multiset *)
+Theorem C06_per_declaration_rules_order : forall us us', Permutation us us' ->
+  Permutation (rule_const_not_fb (concat us)) (rule_const_not_fb (concat us')) /\
+  Permutation (rule_task (concat us)) (rule_task (concat us')) /\
+  Permutation (rule_stdlib (concat us)) (rule_stdlib (concat us')).
+Proof. intros us us' P. repeat split; apply per_fact_perm; exact P. Qed.
+
+Theorem C06_constant_rules_order : forall fs fs', Permutation fs fs' ->
+  (rule_const_init fs = [] <-> rule_const_init fs' = []) /\ (rule_global_const fs = [] <-> rule_global_const fs' = []).
+Proof. intros fs fs' P. split; [apply rule_const_init_perm | apply rule_global_const_perm]; exact P. Qed.
+
+(* with distinct enumeration names the enumerated-value rule does not depend on the order of the declarations *)
+Theorem C06_enumerated_value_order : forall fs fs', Permutation fs fs' -> NoDup (map fst (enum_defs fs)) ->
+  (rule_enum_value fs = [] <-> rule_enum_value fs' = []).
+Proof. exact rule_enum_value_perm. Qed.
+
+(* with distinct function block names the invocation rule does not depend on the order of the units *)
+Theorem C06_invocation_order : forall bs bs', Permutation bs bs' -> NoDup (map fst (fb_defs (stream bs))) ->
+  (rule_fb_call (stream bs) = [] <-> rule_fb_call (stream bs') = []).
+Proof. exact rule_fb_call_perm. Qed.
